@@ -241,7 +241,7 @@ func runC32() {
 	simrt.Sleep(time.Duration(1+simrt.Choose(4, "lead")) * time.Second)
 
 	for ep := 0; ep < episodes; ep++ {
-		sc := simrt.Choose(10, "scenario")
+		sc := simrt.Choose(12, "scenario")
 		simrt.Eventf("episode %d scenario %d at %v", ep, sc, simrt.Elapsed())
 		switch sc {
 		case 0:
@@ -261,6 +261,8 @@ func runC32() {
 			w.scenarioTakeover(ep)
 		case 8, 9:
 			w.scenarioKeepaliveTakeover(ep)
+		case 10, 11:
+			w.scenarioSleepCycle()
 		}
 		// bounded settle; whether the pair reconnects is not C32's subject, what
 		// holds on a surviving connection is (checked continuously by the monitor)
@@ -347,6 +349,72 @@ func (w *world) scenarioReset() {
 	simrt.Eventf("fault: reset link %d (failA=%d failB=%d resetOnDial=%v)", l.ID, w.failLeft[w.m.Nodes[nA].Name], w.failLeft[w.m.Nodes[nB].Name], w.resetOnDial)
 	simrt.Probe("c32_link_reset")
 	l.Reset()
+}
+
+// (sleep cycle) an agent takes all of its connections down itself
+// (peer.Manager.DisconnectAll, what entering sleep mode and the end of a poll
+// window do) and brings them back (ReconnectAll, what waking up and the start
+// of a poll window do) a drawn moment later, while its listeners stay open and
+// its neighbours redial on their own. The connections that were registered when
+// DisconnectAll started are deregistered before they are closed, by design;
+// every connection registered afterwards is subject to all rules.
+func (w *world) scenarioSleepCycle() {
+	x := nB
+	if simrt.Chance(1, 3, "sleeper-a") {
+		x = nA
+	}
+	nd := w.m.Nodes[x]
+	if nd.A == nil {
+		return
+	}
+	pm := nd.A.VerifPeerManager()
+	cs := pm.GetAllPeers()
+	if len(cs) == 0 {
+		simrt.Probe("c32_fault_skipped_pair_down")
+		return
+	}
+	for _, c := range cs {
+		w.mon.admin[c] = true
+		if l := linkOf(c); l != nil {
+			w.mon.faulted[l.ID] = true
+		}
+	}
+	if len(cs) >= 2 {
+		simrt.Probe("c32_sleep_cycle_with_two_peers")
+	}
+	// the close handshake of a connection can take a while (up to seconds with
+	// the WebSocket transport): the agent is still inside DisconnectAll when the
+	// first of its former peers dials back in
+	slow := simrt.Chance(2, 3, "slow-close")
+	if slow {
+		delays := map[int]time.Duration{}
+		for _, c := range cs {
+			if l := linkOf(c); l != nil {
+				delays[l.ID] = time.Duration(simrt.Choose(1500, "close-ms")) * time.Millisecond
+			}
+		}
+		simtransport.SetCloseDelay(func(l *simnet.Link, side int) time.Duration { return delays[l.ID] })
+		defer simtransport.SetCloseDelay(nil)
+		simrt.Probe("c32_sleep_cycle_slow_close")
+	}
+	simrt.Eventf("sleep cycle at %s: %d connection(s) taken down (slow close: %v)", nd.Name, len(cs), slow)
+	simrt.Probe("c32_sleep_cycle")
+	var g simrt.Group
+	g.Go("disconnect-all", func() {
+		simrt.SetNode(nd.Name)
+		pm.DisconnectAll()
+	})
+	g.Wait()
+	if simrt.Chance(2, 3, "wake-gap") {
+		simrt.Sleep(time.Duration(simrt.Choose(1500, "wake-gap-ms")) * time.Millisecond)
+	}
+	g.Go("reconnect-all", func() {
+		simrt.SetNode(nd.Name)
+		ctx, cancel := context.WithTimeout(context.Background(), 30*time.Second)
+		defer cancel()
+		pm.ReconnectAll(ctx)
+	})
+	g.Wait()
 }
 
 // several resets in a row, each a drawn short time after the pair came back
